@@ -326,3 +326,222 @@ impl Property for C23 {
         CaseResult::Ok(rep)
     }
 }
+
+// ------------------------------------------------------------------------------ C28
+
+#[derive(Clone, Debug, Serialize, Deserialize)]
+pub struct C28Case {
+    pub sk: Sk,
+    pub profile: u8,
+    pub indent: u8,
+    pub patterns: bool,
+    /// where to splice hopon-shaped `new` nests: choice numbers
+    pub hops: Vec<[u16; 2]>,
+}
+
+pub struct C28;
+
+/// expected rendering, written from the property text and the documented output format:
+/// (nesting depth, line text with commas removed)
+fn expected_lines(i: &I, depth: usize, patterns: bool, out: &mut Vec<(usize, String)>) {
+    match i {
+        I::Call { peer, svc, func, args, out: o } => {
+            let a: Vec<String> = args.iter().map(|x| x.to_string()).collect();
+            let mut line = format!("call {} ({} {}) [{}]", peer, svc, func, a.join(" "));
+            if let Some(o) = o {
+                line = format!("{} {}", line, o);
+            }
+            out.push((depth, line));
+        }
+        I::Seq(a, b) => {
+            expected_lines(a, depth, patterns, out);
+            expected_lines(b, depth, patterns, out);
+        }
+        I::Par(a, b) => {
+            out.push((depth, "par:".into()));
+            expected_lines(a, depth + 1, patterns, out);
+            out.push((depth, "|".into()));
+            expected_lines(b, depth + 1, patterns, out);
+        }
+        I::Xor(a, b) => {
+            out.push((depth, "try:".into()));
+            expected_lines(a, depth + 1, patterns, out);
+            out.push((depth, "catch:".into()));
+            expected_lines(b, depth + 1, patterns, out);
+        }
+        I::Match(a, b, body) => {
+            out.push((depth, format!("match {} {}:", a, b)));
+            expected_lines(body, depth + 1, patterns, out);
+        }
+        I::Mismatch(a, b, body) => {
+            out.push((depth, format!("mismatch {} {}:", a, b)));
+            expected_lines(body, depth + 1, patterns, out);
+        }
+        I::Fail(FailKind::Lit(c, m)) => out.push((depth, format!("fail {} \"{}\"", c, m))),
+        I::Fail(FailKind::Arg(a)) => out.push((depth, format!("fail {}", a))),
+        I::Null => out.push((depth, "null".into())),
+        I::Never => out.push((depth, "never".into())),
+        I::Ap { src, dst } => out.push((depth, format!("ap {} {}", src, dst))),
+        I::ApMap { key, val, map } => out.push((depth, format!("ap ({} {}) {}", key, val, map))),
+        I::New { var, body } => {
+            if patterns {
+                // virtual hopon: (new $s (new #c (canon P $s #c))), P not the canon itself
+                if let I::New { var: inner, body: b2 } = &**body {
+                    if let I::Canon { peer, src, dst } = &**b2 {
+                        let shadows = matches!(peer, Arg::Var { name, .. } if name == dst);
+                        if var.starts_with('$') && inner.starts_with('#') && !inner.starts_with("#%") && src == var && dst == inner && !shadows {
+                            out.push((depth, format!("hopon {}", peer)));
+                            return;
+                        }
+                    }
+                }
+            }
+            out.push((depth, format!("new {}:", var)));
+            expected_lines(body, depth + 1, patterns, out);
+        }
+        I::Fold { iterable, iter, body, last } => {
+            out.push((depth, format!("fold {} {}:", iterable, iter)));
+            expected_lines(body, depth + 1, patterns, out);
+            if let Some(l) = last {
+                out.push((depth, "last:".into()));
+                expected_lines(l, depth + 1, patterns, out);
+            }
+        }
+        I::Next(it) => out.push((depth, format!("next {}", it))),
+        I::Canon { peer, src, dst } => out.push((depth, format!("canon {} {} {}", peer, src, dst))),
+    }
+}
+
+/// normalise an output line: strip the indentation, drop commas, move `x <- ` to the end
+fn read_line(line: &str) -> (usize, String) {
+    let indent = line.len() - line.trim_start_matches(' ').len();
+    let mut t = line.trim().replace(',', "");
+    if let Some(pos) = t.find(" <- ") {
+        let lhs = t[..pos].to_string();
+        t = format!("{} {}", &t[pos + 4..], lhs);
+    }
+    let t = t.split_whitespace().collect::<Vec<_>>().join(" ");
+    (indent, t)
+}
+
+impl Property for C28 {
+    type Case = C28Case;
+    fn id(&self) -> &'static str {
+        "C28"
+    }
+    fn rule(&self) -> String {
+        "generated parser-accepted scripts of all profiles (plus spliced hopon-shaped `new` nests) x indent step 0..8 x patterns on/off; the beautified text is read back line by line (indentation, commas dropped, `x <- call` normalised) and compared with an independent rendering of the generator's own tree: same instructions in the same order, indentation = nesting depth x step with seq flattened, par:/|, try:/catch:, fold ..:/last:, new ..:, match ..:, operands as printed in the script. Non-trivial = script with >= 3 levels of nesting and >= 8 output lines; distinct by (text, indent, patterns) hash".into()
+    }
+    fn assumptions(&self) -> Vec<String> {
+        vec!["generated literals contain no spaces, quotes or commas; lens paths are written in the canonical `.$.a.[0]` form".into()]
+    }
+    fn bounds(&self, tier: Tier) -> Value {
+        json!({"skeleton_depth": tier.pick(6, 8), "skeleton_size": tier.pick(40, 80), "indent": "0..8"})
+    }
+    fn cases(&self, tier: Tier) -> u32 {
+        tier.pick(500_000, 10_000_000)
+    }
+    fn strategy(&self, tier: Tier) -> BoxedStrategy<C28Case> {
+        (sk_strategy(tier.pick(6, 8), tier.pick(40, 80)), 0u8..3, 0u8..=8, any::<bool>(), proptest::collection::vec(any::<[u16; 2]>(), 0..3))
+            .prop_map(|(sk, profile, indent, patterns, hops)| C28Case { sk, profile, indent, patterns, hops })
+            .boxed()
+    }
+    fn required_classes(&self) -> Vec<&'static str> {
+        vec!["hopon_rendered", "hopon_shape_plain", "has_last", "has_par", "has_xor", "indent_0", "depth_ge_3"]
+    }
+    fn check(&self, case: &C28Case, _tier: Tier) -> CaseResult {
+        let profile = match case.profile {
+            0 => Profile::Frag,
+            1 => Profile::Stream,
+            _ => Profile::Any,
+        };
+        let cfg = GenCfg::new(profile);
+        let script = elaborate(&case.sk, &cfg);
+        let mut instr = script.instr.clone();
+        // splice hopon-shaped nests
+        for (k, h) in case.hops.iter().enumerate() {
+            let peer = match h[0] % 3 {
+                0 => Arg::InitPeer,
+                1 => Arg::Str(script.peers[pick(h[1], script.peers.len())].id.clone()),
+                _ => Arg::Str("relay".into()),
+            };
+            let s = format!("$hop{}", k);
+            let c = format!("#hopc{}", k);
+            let hop = I::New { var: s.clone(), body: Box::new(I::New { var: c.clone(), body: Box::new(I::Canon { peer, src: s, dst: c }) }) };
+            let old = std::mem::replace(&mut instr, I::Null);
+            instr = if h[1] % 2 == 0 { I::seq(hop, old) } else { I::seq(old, hop) };
+        }
+        let text = print(&instr);
+        let mut rep = CaseReport::default();
+        rep.evals = 1;
+        let mut outbuf: Vec<u8> = vec![];
+        let res = {
+            let mut b = air_beautifier::Beautifier::new_with_indent(&mut outbuf, case.indent as usize);
+            if case.patterns {
+                b = b.enable_all_patterns();
+            }
+            std::panic::catch_unwind(std::panic::AssertUnwindSafe(|| b.beautify(&text)))
+        };
+        let detail = |extra: Value| json!({"script": text, "indent": case.indent, "patterns": case.patterns, "extra": extra});
+        match res {
+            Err(_) => {
+                return CaseResult::Violation(Violation { signature: "C28:beautifier-panics".into(), message: format!("beautify panicked: {}", crate::isolate::last_panic()), detail: detail(json!({})) }, rep)
+            }
+            Ok(Err(_)) => return CaseResult::Discard("parser rejects the generated script".into()),
+            Ok(Ok(())) => {}
+        }
+        let output = String::from_utf8_lossy(&outbuf).to_string();
+        let got: Vec<(usize, String)> = output.lines().map(read_line).collect();
+        let mut exp: Vec<(usize, String)> = vec![];
+        expected_lines(&instr, 0, case.patterns, &mut exp);
+        let step = case.indent as usize;
+        let norm = |s: &str| s.split_whitespace().collect::<Vec<_>>().join(" ");
+        for (k, (d, line)) in exp.iter().enumerate() {
+            match got.get(k) {
+                None => {
+                    return CaseResult::Violation(Violation { signature: "C28:instruction-missing".into(), message: format!("output ends after {} lines; expected line {}: {:?}", got.len(), k + 1, line), detail: detail(json!({"output": output})) }, rep)
+                }
+                Some((gi, gl)) => {
+                    if *gl != norm(line) {
+                        return CaseResult::Violation(
+                            Violation { signature: "C28:line-differs".into(), message: format!("line {}: expected {:?} but the beautifier printed {:?}", k + 1, norm(line), gl), detail: detail(json!({"output": output})) },
+                            rep,
+                        );
+                    }
+                    if *gi != d * step {
+                        return CaseResult::Violation(
+                            Violation { signature: "C28:indentation-differs".into(), message: format!("line {} ({:?}): nesting depth {} x step {} expected, found {} spaces", k + 1, gl, d, step, gi), detail: detail(json!({"output": output})) },
+                            rep,
+                        );
+                    }
+                }
+            }
+        }
+        if got.len() > exp.len() {
+            return CaseResult::Violation(Violation { signature: "C28:extra-lines".into(), message: format!("the beautifier printed {} lines for {} expected; first extra: {:?}", got.len(), exp.len(), got[exp.len()]), detail: detail(json!({"output": output})) }, rep);
+        }
+        let maxd = exp.iter().map(|x| x.0).max().unwrap_or(0);
+        if exp.iter().any(|x| x.1.starts_with("hopon ")) {
+            rep.classes.push("hopon_rendered".into());
+        }
+        if !case.patterns && !case.hops.is_empty() {
+            rep.classes.push("hopon_shape_plain".into());
+        }
+        for (c, pat) in [("has_last", "last:"), ("has_par", "par:"), ("has_xor", "try:")] {
+            if exp.iter().any(|x| x.1 == pat) {
+                rep.classes.push(c.into());
+            }
+        }
+        if step == 0 {
+            rep.classes.push("indent_0".into());
+        }
+        if maxd >= 3 {
+            rep.classes.push("depth_ge_3".into());
+            if exp.len() >= 8 {
+                rep.nontrivial.push(fnv(format!("{}|{}|{}", text, step, case.patterns).as_bytes()));
+            }
+        }
+        rep.sample = Some(json!({"script": text, "indent": step, "patterns": case.patterns, "output": output}));
+        CaseResult::Ok(rep)
+    }
+}
